@@ -17,6 +17,7 @@ import (
 	"bufio"
 	"context"
 	"encoding/hex"
+	"io"
 	"net"
 
 	"github.com/honeytrap/honeytrap/event"
@@ -156,8 +157,10 @@ func (s *tftpService) Handle(ctx context.Context, conn net.Conn) error {
 			return err
 		}
 		buffer := make([]byte, 512)
-		n, err := b.Read(buffer)
-		if err != nil {
+		n, err := io.ReadFull(b, buffer)
+		if err == io.EOF || err == io.ErrUnexpectedEOF {
+			// a block shorter than 512 bytes (possibly empty) ends the transfer
+		} else if err != nil {
 			log.Error(err.Error())
 			return err
 		}
